@@ -337,6 +337,11 @@ def run(ctx):
     ctx.cov['evaluations'] += sum(len(t['ev']) for t in traces)
     judge(ctx, cases, traces)
     ph['validate'] = round(time.time() - t0, 1)
+    # 3. real time: wait/signal/unhang/FlowVar with the signals coming from plain threads and other clocks' tasks,
+    #    on the real clocks under the controlled scheduler, judged by the ClockL1 monitor (props/_rtcond.py)
+    from props import _rtcond
+    _rtcond.run(ctx)
+    ph['rt-conditions'] = round(time.time() - t0, 1)
     print('phases (cumulative s):', ph)
     cl = {}
     for c in cases:
@@ -353,7 +358,8 @@ def run(ctx):
                        'waiting lists, queue, body log); non-trivial = two body runs or a nested call'
                        % (len(PROGSETS) if thorough else len(QUICK_SETS), nrand))
     ctx.cov['exhaustive'] = True
-    ctx.assumptions += ['NRT mode: clock wake-ups are single steps of the NRT scheduler loop (tick); RT clock threads are not run',
+    ctx.assumptions += ['API histories run in NRT mode: clock wake-ups are single steps of the NRT scheduler loop (tick); in RT only the '
+                        'wait/signal/unhang/FlowVar clause is exercised (section 3 of run)',
                         'scheduling a task that is already queued replaces its entry (RT TaskQueue semantics); NRT keeps both '
                         'entries - such traces are classified as the known NRT duplicate-scheduling finding when the '
                         'multi-entry semantics explains them completely',
@@ -362,6 +368,9 @@ def run(ctx):
 
 
 def replay(ctx, rp):
+    if rp['replay'].get('kind') == 'rt-condition':
+        from props import _rtcond
+        return _rtcond.replay(ctx, rp['replay'])
     c = rp['replay']['case']
     c = dict(c, cls='replay')
     traces = run_cases(ctx, [c])
@@ -379,8 +388,13 @@ MANIFEST = dict(
           'DoneRaisesStop, PausedRaises, SelfOpsRefused, StackRestored (at rest and at every nested return) and the '
           'wake-up laws hold; the real classes are bound to the spec by validating exhaustive short histories, random '
           'long histories over random programs and TLC-simulated behaviours, event by event (result, exception class, '
-          'all states, current thread, logical time, waiting lists, scheduler queue, body log).'),
-    note=('NRT mode only (wake-ups are single steps of the NRT scheduler); RT clock threads are not exercised. Bodies are '
+          'all states, current thread, logical time, waiting lists, scheduler queue, body log). The wake-up clause is '
+          'also decided in real time: programs of waiting routines on SystemClock/AppClock/TempoClock with set/signal/'
+          'unhang/FlowVar-binding from plain threads and other clocks\' tasks run on the real clocks under the controlled '
+          'scheduler (random, PCT and bounded-DFS schedules, a preemption point between evaluating the test and registering '
+          'the routine) and TLC folds every execution through the ClockL1 monitor (parked-though-true, resumed-before-'
+          'condition, lost-wakeup, exactly-once / in-order re-scheduling at the signal\'s linearization point).'),
+    note=('API histories in NRT mode (wake-ups are single steps of the NRT scheduler); in RT only the wait/signal clause. Bodies are '
           'scripts over a fixed vocabulary; generator close()/GC effects are not observed. Trusted: TLC, CPython '
           'generators, the recording driver.'),
     technique='TLA+ interpreter spec with L1 predicates checked by TLC + batch trace validation of exhaustive/random/simulated API histories on the real classes',
